@@ -25,8 +25,8 @@ func BuildGovs() string {
 		core.Infra("%v", err)
 	}
 	defer os.RemoveAll(scratch)
-	env := append(os.Environ(), "GOFLAGS=-mod=mod", "GOPROXY=off")
-	args := []string{"-out", scratch, "-govs", govsPkgs, "-vfs", vfsPkgs, "-vroot", core.Root, "-vpkg", "verif/shimprogs"}
+	env := core.GoEnv()
+	args := []string{"-repo", core.Repo, "-out", scratch, "-govs", govsPkgs, "-vfs", vfsPkgs, "-vroot", core.Root, "-vpkg", "verif/shimprogs"}
 	adds, _ := filepath.Glob(filepath.Join(core.Root, "hooks", "*", "*.go"))
 	for _, a := range adds {
 		// hooks/<pkg path with __>/<file>.go is added to that package as zz_verif_<file>.go
